@@ -301,7 +301,17 @@ impl Add<Pattern> for Pattern {
     type Output = Pattern;
 
     fn add(self, rhs: Pattern) -> Self::Output {
-        Pattern::regex((self.to_string() + &rhs.to_string()).as_str()).unwrap()
+        // keep the case sensitivity of each operand
+        let ci = self.anchored_regex.is_case_insensitive();
+        let rhs_src = if rhs.anchored_regex.is_case_insensitive() && !ci {
+            format!("(?i:{rhs})")
+        } else {
+            rhs.to_string()
+        };
+        let opts = PatternOpts {
+            case_insensitive: ci,
+        };
+        Pattern::regex_with((self.to_string() + &rhs_src).as_str(), &opts).unwrap()
     }
 }
 
